@@ -187,3 +187,24 @@ class Dykstra(E2Contract):
                        "the loop continues while error_k >= eps and stops at the first error_k < eps (k >= 1)"))
         cl.append(true("at-least-one-sweep", n_done >= 1, "at least one sweep is executed"))
         return cl
+
+
+# ------------------------------------------------------------------ callee contracts the claim rests on, re-checked under C05
+from .C04_all import EqProjectionWithVar as _EqWithVar
+from .C03_e2 import VarObjectRoundTrip as _VarObject
+
+
+class EqStepUnderC05(_EqWithVar):
+    """the equality step every sweep of the variable-level routine takes (C04's contract), on the systems where dim*2 != dim**2"""
+    prop = "C05"
+
+    def configs(self, tier):
+        return [("1qt", "gate", 0, False), ("1qt", "gate", 0, True), ("1q", "mprocess", 3, False), ("1qt", "povm", 2, False)]
+
+
+class EntryConversionUnderC05(_VarObject):
+    """the conversions by which the variable-level routine enters and leaves the stacked parameter space (C03's contract)"""
+    prop = "C05"
+
+    def configs(self, tier):
+        return [("1q", "mprocess", 3, True), ("1q", "povm", 3, True), ("1qt", "gate", 0, True), ("1q", "state", 0, True)]
